@@ -26,7 +26,7 @@ static inline int myth_ensure_init(void) {
 
 static inline size_t myth_globalattr_default_stacksize(void) {
   /* default stack size */
-  size_t sz = 0;
+  long sz = 0;
   char * env = getenv(ENV_MYTH_DEF_STKSIZE);
   if (env) {
     sz = atoi(env);
@@ -39,7 +39,7 @@ static inline size_t myth_globalattr_default_stacksize(void) {
 
 static inline size_t myth_globalattr_default_guardsize(void) {
   /* default guard size */
-  size_t sz = 0;
+  long sz = 0;
   char * env = getenv(ENV_MYTH_DEF_GUARDSIZE);
   if (env) {
     sz = atoi(env);
